@@ -377,14 +377,21 @@ def _drm_cases(ctx):
         if route in ("default", "solveunc-h-pre"):
             nrb = r if rng.random() < 0.5 else int(rng.integers(1, r + 1))
             phib = np.eye(r) if nrb == r else rng.standard_normal((r, nrb))
-            M, B, K, _ = _gen_struct(rng, r, int(rng.integers(1, 6)), phib, ("prop", "modal", "nonprop")[it % 3])
+            M, B, K, phi_rb = _gen_struct(rng, r, int(rng.integers(1, 6)), phib, ("prop", "modal", "nonprop")[it % 3])
             n_ = M.shape[0]
             if route == "solveunc-h-pre" or it % 7 == 3:
                 # one heavy dashpot in a lightly damped structure: the elastic roots mix over-damped (real) and
-                # under-damped (complex) eigenvalues
+                # under-damped (complex) eigenvalues.  The dashpot acts on the elastic deformation only (projected so that
+                # B phi_rb = 0 still holds): a grounded dashpot would turn the rigid-body modes into nearly defective
+                # zero roots of the complex eigenproblem, whose accuracy (measured: down to 5e-5) is a property of the
+                # eigen-solver and not of the Norton-Thevenin algebra
                 i = int(rng.integers(0, n_))
-                B = B.copy()
-                B[i, i] += 2.0 * math.sqrt(abs(K[i, i]) * M[i, i]) * float(rng.uniform(1.5, 6.0))
+                Pj = np.eye(n_) - phi_rb @ np.linalg.solve(phi_rb.T @ phi_rb, phi_rb.T)
+                e = np.zeros((n_, 1))
+                e[i, 0] = 1.0
+                cdash = 2.0 * math.sqrt(abs(K[i, i]) * M[i, i]) * float(rng.uniform(1.5, 6.0))
+                B = B + cdash * (Pj.T @ e @ e.T @ Pj)
+                B = (B + B.T) / 2
                 stiff = True
             if it % 5 == 0:
                 T = rng.standard_normal((r, n_))  # dense recovery matrix
@@ -427,6 +434,14 @@ def _calc_am(frclim, ode, c):
         return frclim.calcAM(S, c["freq"])
 
 
+def _eig_grade(c):
+    """tolerance factor for the deliberately stiff family (one dashpot of 1.5 .. 6 times critical in a lightly damped
+    structure, so that the roots mix real and complex eigenvalues): every route loses digits there (measured: up to 2e-6
+    relative, uncorrelated with the conditioning of the eigenvectors SolveUnc computes), so these cases are compared at
+    1e-5; what this family is for - a wrong set of modes, a missing conjugate - is an O(1) error"""
+    return 1e4 if c.get("stiff") else 1.0
+
+
 def _compare_am(ctx, stream, c, inp, am, model, cond, extra_ok=None):
     """entry-wise comparison per frequency; frequencies beyond the conditioning domain are skipped"""
     nf = len(c["freq"])
@@ -441,9 +456,7 @@ def _compare_am(ctx, stream, c, inp, am, model, cond, extra_ok=None):
         sc = np.abs(model[:, j, :]).max()
         e = np.abs(am[:, j, :] - model[:, j, :]).max() / max(sc, 1e-300)
         worst = max(worst, e)
-        # a heavy local dashpot mixes real and complex roots: the eigen-solver based routes lose about three more digits
-        # there (measured), so those cases are compared at 1e-6 (a wrong mode set is an O(1) error)
-        if not e <= TOL * (1e3 if c.get("stiff") else 1.0) * max(1.0, cond[j] / 100):
+        if not e <= TOL * _eig_grade(c) * max(1.0, cond[j] / 100):
             ctx.disagree(stream, inp, {"freq_index": j, "impl": _enc(am[:, j, :])},
                          {"model": _enc(model[:, j, :]), "relerr": float(e), "cond": float(cond[j])})
             break
@@ -824,7 +837,7 @@ def _replay_input_raw(inp, frclim, ode):
             r = c["T"].shape[0]
             _chk(fails, "calcAM-drm-%s-vs-definition-%s" % (c["route"], "multi-dof" if r > 1 else "single-dof"),
                  "calcAM differs from inv(T Z^-1 T' (-W^2)) computed with numpy", inp, am, ref, cond, 1,
-                 tol=TOL * (1e3 if inp.get("stiff") else 1.0))
+                 tol=TOL * _eig_grade(inp))
             return _fdict(fails[0]) if fails else None
         if kind == "calcAM-pv":
             # model-free meaning of the partition form: enforce unit boundary accelerations on the
